@@ -194,7 +194,7 @@ def part_a(level):
 
 # ------------------------------------------------------------------------------------------ part B
 
-ATOMS = ["0", "1", "#f", "'a", "x"]
+ATOMS = ["0", "1", "#f", "'a", "x", "'#f"]
 ATOMS_SMALL = ["0", "#f", "x"]
 LISTS = ["'()", "(list x)", "'(1 2)"]
 
